@@ -499,6 +499,15 @@ def sec_parity_flag(rep):
             rep.add(ob_eval(f"C02/ObservableName({kind}_{flavor}).is_parity_violating == {kind in H.PV_KINDS}", got == (kind in H.PV_KINDS), detail=f"got {got}", inputs={} if got == (kind in H.PV_KINDS) else {"kind": kind, "got": got}))
 
 
+def sec_drop_empty(rep):
+    """A parton weight reaches the operator however small it is: Combiner.drop_empty removes a kernel
+    only if ALL its weights are exactly zero (contract of C01, re-discharged here: the pure-Z weights
+    of a neutrino at low Q2 or a small CKM element are genuinely tiny)."""
+    from . import c01
+
+    c01.sec_drop_empty(rep)
+
+
 def sec_lo(rep):
     """LO() of every partonic channel class (found by module scan)."""
     from yadism.coefficient_functions.partonic_channel import RSL
@@ -803,7 +812,7 @@ def run(rep, tier, seed, only=None):
         "gluon/singlet/valence weights specified as flavour averages (charge average), see DESIGN C02",
         "identity tolerance 1e-12 relative (concrete float sub-computations such as np.mean of charges)",
     )
-    secs = [("parityflag", sec_parity_flag), ("couplings", sec_couplings), ("ckm", sec_ckm), ("weights", sec_weights), ("weightsframe", sec_weights_history), ("lo", sec_lo), ("lo_view", sec_lo_view), ("heavyness", sec_lo_view_heavyness), ("grid", sec_grid_node)]
+    secs = [("parityflag", sec_parity_flag), ("dropempty", sec_drop_empty), ("couplings", sec_couplings), ("ckm", sec_ckm), ("weights", sec_weights), ("weightsframe", sec_weights_history), ("lo", sec_lo), ("lo_view", sec_lo_view), ("heavyness", sec_lo_view_heavyness), ("grid", sec_grid_node)]
     for nm, f in secs:
         if only and only not in nm:
             continue
